@@ -281,6 +281,15 @@ func berEncode(p *XVal, depth int) []byte {
 	} else if d := p.Fields["Data"]; d != nil && d.Dyn != nil {
 		content, _ = hex.DecodeString(d.Dyn.Bytes)
 	}
+	if cls&0xC0 == 0 && tag == 0 {
+		// the model left the tag unconstrained (0 = end-of-contents, which the BER
+		// reader refuses inside a definite length): any other universal tag serves
+		if typ&0x20 != 0 {
+			tag = 16
+		} else {
+			tag = 4
+		}
+	}
 	var out []byte
 	first := byte(cls&0xC0) | byte(typ&0x20)
 	if tag >= 0 && tag < 31 {
